@@ -7,7 +7,7 @@ from ..runner import Part
 PROPERTY = 'C10'
 LEVEL = 'exploration'
 REASONS = [b'', b'x', b'Permission denied', b'r' * 300, b'bad \xff\xfe name', b'disk 100% full', b'%s %d %(x)s', b'50%%']
-RULE = ('pull: FAIL right after RECV / after 1 or 2 DATA records / in place of DONE; push: FAIL after SEND, after the k-th DATA, at DONE, for files of 100, 5000, 9000 and 17000 bytes at maxdata 4096 (1 to 5+ host WRTEs), '
+RULE = ('pull: FAIL right after RECV / after 1 or 2 DATA records / in place of DONE, also late in 6000/20000-byte transfers whose records straddle the WRTE packets; push: FAIL after SEND, after the k-th DATA, at DONE, for files of 100, 5000, 9000 and 17000 bytes at maxdata 4096 (1 to 5+ host WRTEs), '
         'with EVERY position of the FAIL WRTE among the device\'s OKAYs (emitted after 0..n further host WRTEs); reasons {empty, x, Permission denied, 300 bytes, non-UTF-8, three containing per-cent signs}; the '
         'FAIL record cut into WRTEs at every set of <=2 positions (<=1 for the 300-byte reason); sync records that are not valid at that point (every known id, first reply and after '
         'a DATA record, for pull, list, stat and the push status); both twins; oracle: pull -> AdbCommandFailureException containing the reason, push -> PushFailedError carrying it, '
@@ -65,6 +65,28 @@ def run_pull_fail(params, ch):
             viol.append({'msg': 'pull spent %.3f s of virtual time before reporting the failure' % (s.env.clock.now - t0)})
         return {'outcome': r[:2], 'viol': viol, 'nontrivial': ('pull', str(when), params['reason'], tuple(cuts), params['twin']),
                 'sample': {'op': 'pull', 'fail_when': when, 'reason': reason[:20], 'cuts': cuts, 'twin': params['twin'], 'result': r[:2]}, 'trans': len(s.env.events)}
+    finally:
+        s.finish()
+
+
+def run_pull_fail_long(params, ch):
+    """A long transfer (many records, records straddling the WRTE packets) that the device ends with FAIL after k records or in place of DONE."""
+    reason = REASONS[params['reason']]
+    data = rng('c10long').randbytes(params['size'])
+    when = params['when']
+    cfg = {'fs': {'files': {b'/f': {'data': data}}}, 'records': params['rec'], 'cut': {'size': params['wrte']}, 'maxdata': params['maxdata'],
+           'fail': {'op': 'recv', 'when': tuple(when) if isinstance(when, list) else when, 'reason': reason}}
+    s = Session(ch, cfg, twin=params['twin'])
+    try:
+        s.op(('connect',))
+        t0 = s.env.clock.now
+        r = s.op(('pull', '/f', 'bytesio', {'cb': params['cb']} if params.get('cb') else {}))
+        viol = oracle.base_viol(s, completed=False)
+        judge_exc(s, r, 'AdbCommandFailureException', reason, viol, 'pull of %d bytes in %d-byte records over %d-byte WRTEs (FAIL %s)' % (params['size'], params['rec'], params['wrte'], when))
+        if s.env.clock.now - t0 >= 10.0:
+            viol.append({'msg': 'pull spent %.3f s of virtual time before reporting the failure' % (s.env.clock.now - t0)})
+        return {'outcome': r[:2], 'viol': viol, 'nontrivial': tuple(sorted((k, str(v)) for k, v in params.items())),
+                'sample': dict(params, result=r[:2]), 'trans': len(s.env.events)}
     finally:
         s.finish()
 
@@ -154,6 +176,11 @@ def parts(tier):
                         sc.append({'size': size, 'when': w, 'delay': delay, 'reason': ri, 'twin': t, 'kmax': (0 if tier == 'quick' else 1) if (ri == 3 or delay > 1) else (1 if tier == 'quick' else 2)})
     out.append(Part('push-fail', sc, run_push_fail, {'*': None}, what='push: FAIL at every point x every position among the OKAYs x reasons x cut sets',
                     bound='files of 100..17000 bytes (1..5+ host WRTEs); <=%d cuts' % (1 if tier == 'quick' else 2)))
+    sc = [{'size': z, 'rec': rec, 'wrte': w, 'when': wh, 'reason': 2, 'twin': t, 'maxdata': md, 'cb': cb}
+          for z in (6000, 20000) for rec in (1000, 4000, 65536) for w in (100, 1500, 4096) for md in (4096, 65536) for t in twins for cb in (None, 'count')
+          for wh in ([['data', k] for k in range(1, -(-z // rec) + 1)][-3:] + ['done'])]
+    out.append(Part('pull-fail-long-transfer', sc, run_pull_fail_long, what='pull: FAIL after the last records or in place of DONE of a 6000/20000-byte transfer whose records straddle the WRTE packets',
+                    bound='%d cases' % len(sc), min_outcomes=1))
     # a slow but legal device: each WRTE arrives within the read timeout, the whole FAIL record (3 WRTEs) takes longer than it
     SLOW = (0.4, 1.0)
     sc = [{'when': w, 'reason': ri, 'twin': t, 'kmax': 2, 'slow': SLOW} for w in ('start', ['data', 1], 'done') for ri in (1, 2, 4) for t in twins]
